@@ -298,7 +298,9 @@ func (p *H264Packet) parseBody(payload []byte) ([]byte, error) { //nolint:cyclop
 			return nil, errShortPacket
 		}
 
-		if p.fuaBuffer == nil {
+		if p.fuaBuffer == nil || payload[1]&fuStartBitmask != 0 {
+			// a start fragment begins a new unit: bytes buffered from a fragmented unit whose
+			// end never arrived must not be prepended to it
 			p.fuaBuffer = []byte{}
 		}
 
